@@ -70,8 +70,8 @@ func startPipeline(t *testing.T) *pipeline {
 		}
 		registry.Default = be
 		first := make(chan bool)
-		go watchBackend(cfg, metrics.DiscardProvider{}, first)
-		go watchNoRouteHTML(cfg)
+		go flex(watchBackend, cfg, metrics.Provider(metrics.DiscardProvider{}), first)
+		go flex(watchNoRouteHTML, cfg)
 		pipe = p
 	})
 	return pipe
